@@ -104,7 +104,9 @@ def run(chk, mod, lib):
         chk.record('block-selection', 'gap', 'read_block(name, processor, scale) not found in the IR')
         chk.not_covered.append('block selection by name and scale (function not found)')
         return
-    for N in range(0, NMAX + 1):
+    nmax = NMAX + 1 if chk.tier == 'quick' else NMAX + 3
+    chk.bounds['blocks_of_a_name'] = nmax
+    for N in range(0, nmax + 1):
         match = [z3.Bool('name_matches_%d' % k) for k in range(N)]
         atscale = [z3.Bool('at_scale_%d' % k) for k in range(N)]
         st = X.State()
@@ -145,7 +147,7 @@ def run(chk, mod, lib):
                 report(chk, lib, tag, N, flags, 'with %d blocks (matches name/scale: %r) the blocks processed are %r, expected %r'
                        % (N, flags, got, want))
     chk.assumptions.append('block selection: SLHAea::Coll::find/end and the deque iterators are replaced by their contract over '
-                           'positions 0..N (N <= %d blocks); is_at_scale is a symbolic flag per block (rule decided separately)' % NMAX)
+                           'positions 0..N (N <= %d blocks); is_at_scale is a symbolic flag per block (rule decided separately)' % nmax)
 
 
 def native_select(lib, bits):
